@@ -1,6 +1,8 @@
 pub mod c01;
 pub mod c02;
 pub mod c04;
+pub mod c07;
+pub mod c08;
 pub mod simcommon;
 pub mod c10;
 pub mod c11;
@@ -15,6 +17,8 @@ pub fn run(ctx: &Ctx, id: &str) -> bool {
         "C01" => c01::run(ctx),
         "C02" => c02::run(ctx),
         "C04" => c04::run(ctx),
+        "C07" => c07::run(ctx),
+        "C08" => c08::run(ctx),
         "C10" => c10::run(ctx),
         "C11" => c11::run(ctx),
         "C17" => c17::run(ctx),
@@ -29,6 +33,8 @@ pub fn replay(ctx: &Ctx, id: &str, part: &str, case: &Value) -> bool {
         "C01" => c01::replay(ctx, part, case),
         "C02" => c02::replay(ctx, part, case),
         "C04" => c04::replay(ctx, part, case),
+        "C07" => c07::replay(ctx, part, case),
+        "C08" => c08::replay(ctx, part, case),
         "C10" => c10::replay(ctx, part, case),
         "C11" => c11::replay(ctx, part, case),
         "C17" => c17::replay(ctx, part, case),
